@@ -20,7 +20,7 @@ ASBUILT["C02"] = """**As built (C02 and C03 share `vlib/c02.py`).** `spec/PathMa
 `RestDroppable`), `PathMatch_Gen.tla` (+ pools small/mid/full, `ExtraPats`, the C03 lemma as an invariant), `harness/c02_test.go`. Quick: 467 k
 (pattern, path, config) cases, 35 s; thorough ~5 min. Both statements are decided from one replay; the verdict is split by the kind of
 disagreement. Values include a non-ASCII letter in both spellings (three bytes `B+E2 B+84 B+AA`, and `%E2%84%AA` decoded under `UnescapePath`), and a
-two-byte delimiting literal whose first byte also occurs in values. Fixed on the way: `ec56936`, `e188dc8` (C02), `11a0cd5`, `6150301`, `d91bf3b` (C03)."""
+two-byte delimiting literal whose first byte also occurs in values. Fixed on the way: `ec56936`, `e188dc8` (C02), `11a0cd5`, `6150301`, `d91bf3b` (C03). After the fifth batch of seeded changes: every endpoint route is followed by its *escape twin* (the pattern with its first parameter marker escaped, `/items/\\:id`), a route of its own that handles exactly the paths `RoutePatternMatch` says its text matches -- which at once found `STARFIX` (a route registered as `/\\*` handled every path) -- and a constraint of the application's own registered under the name of a built-in one (`:u<float>`, odd length: the registered constraint is the declared one)."""
 ASBUILT["C04"] = """**As built.** `spec/Mount.tla` (+ `MC_Mount*.cfg`; actions `AddRoute`, `Open(group|mount)`, `Close`, `Rebuild` -- a request served between two
 registrations, which forces the route tree to be rebuilt while mounts are pending), `harness/c04_test.go` building every program three ways
 (mounts before / after population -- the former with the prefix in its list form `Use([]string{p}, sub)` --, groups, flat). Quick 165 k
@@ -43,7 +43,7 @@ the later requests on the same `RequestCtx`, compares every captured value with 
 sketched above -- every step is deterministic, so the prescribed observation is simply "unchanged". Fixed: `c9b6730` (binders), `c2dc3cb`
 (`Params`). After the seeded changes the specification gained a `working` phase: `Churn` steps stand for the handler using helpers that write to
 the context's scratch buffers (`Links`, `String`, `Attachment`, `GetRouteURL`) and `StableInHandler` requires the values taken before to
-read the same at the end of the handler (`MC_Immutable_scratch.cfg`, an accessor backed by scratch memory, must fail); `Range().Type` joined the accessors. False alarm corrected: `Host` is lower-cased by fasthttp in place; the comparison is against the value as first read."""
+read the same at the end of the handler (`MC_Immutable_scratch.cfg`, an accessor backed by scratch memory, must fail); `Range().Type` joined the accessors. False alarm corrected: `Host` is lower-cased by fasthttp in place; the comparison is against the value as first read. Fifth batch: shape `unmatched` (a request no route matches is captured in the application's error handler, accessor `routepath` = `Route().Path`), `SendFile` among the churn steps, and every scenario runs on a connection whose buffers have grown (a long target was served on it before)."""
 ASBUILT["C07"] = """**As built (level: exploration).** `spec/Wire.tla`: `Read1 -> Reject(st) | Dispatch(st, helper, arg) -> Second`, `Status(class)` the set of statuses a
 request class may be answered with, `Closing(st)` the connection fate as a function of the status, invariant `NoResponseAfterMalformed`; 14
 request classes x 16 helpers x 8 argument classes (CR, LF, CRLF + header line, CRLFCRLF + body, NUL, 6 KB, non-ASCII + CRLF, plain) x 5
@@ -65,7 +65,7 @@ strict parser rejects only CR, LF, NUL in values, not every control byte. Later 
 ASBUILT["C08"] = """**As built.** `spec/ErrorHandler.tla` + `MC_ErrorHandler.tla/.cfg` (`Configure`, `Raise`, `Deliver`; `ExactlyOnce`, `ChosenIsScoped`, `ChosenIsInnermost`),
 `harness/c08_test.go`: forests of <= 3 mounted apps over 7 confusable prefixes, every scenario run repeatedly on apps mounted parent-first and
 child-first, with the error raised by root middleware before the mounts, after them, or by a handler inside the mounted apps; two further
-apps carry a prefix with capitals and one written with a trailing slash at the mount call (forests with those are limited to two apps). 387 k states, 191 k scenarios, 45-80 s. Fixed: `b918f62`."""
+apps carry a prefix with capitals and one written with a trailing slash at the mount call (forests with those are limited to two apps). 387 k states, 191 k scenarios, 45-80 s. Fixed: `b918f62`. Fifth batch: error kind `wrapped418` (a framework error value a middleware annotated with `%w` is still a framework error value) and every other forest mounted through a `Group` of the parent instead of `Use` on it."""
 ASBUILT["C09"] = """**As built.** `spec/Negotiation.tla` (`Pick`, `FormatOutcome`, `ZeroNeverSelects`, `AbsentSelectsFirst`), `harness/c09_test.go` (4 spellings per abstract
 header; `Accepts` twice on a pooled context, `Format`). Token lists (`AcceptsCharsets/Encodings/Languages`) are enumerated as ranges with an empty subtype over three tokens that are no prefixes of
 one another. Bounds are explicit constants: quick 2 ranges x 2 offers (75 k cases), thorough 3 x 2 and a wider q / parameter pool 2 x 3 (3.3 M
@@ -74,7 +74,7 @@ cases, 7 min; the first thorough configuration, 3 x 3 over the wide pool, was 87
 ASBUILT["C10"] = """**As built.** `spec/TrustProxy.tla` (`Trusted`, output functions, `NonInterference`, `SecureIffHttps`, `ValidatedIPIsAnAddress`), `harness/c10_test.go` with
 `fakeConn`/`fakeTLSConn` supplying peer address and TLS state (IPv4 peers in 4-byte and 16-byte form), forwarded scheme values other than
 `https` (`ftp`, upper case), and a sibling application derived from `app.Config()` created before any request (outputs must not depend on
-other applications in the process). 179 k states, 178 k cases, 20 s. Fixed: `a7429d1`, `b3a2d9c`."""
+other applications in the process). 179 k states, 178 k cases, 20 s. Fixed: `a7429d1`, `b3a2d9c`. Fifth batch: IPv6 literals with a zone suffix (`fe80::1%eth0`, `::1%<text>`) in the forwarded list: with IP validation a zone is not part of an address."""
 ASBUILT["C11"] = """**As built (level: exploration).** `spec/Binding.tla`: strings are sequences of *atoms* (the harness maps `amp`, `pct41`, `eacute`, `comma`, ... to
 bytes) so that the specification itself defines comma splitting; actions `SetPrior`, `SetStruct` (holder := `Enc(v)`: Del + Add per field -- a
 later SetStruct overrides an earlier one), `Send(mode)` (expect := `Dec(source, holder, split)`), `Bad(kind, mode)`; invariants `RoundTrip`
@@ -90,7 +90,7 @@ extra unrelated cookie; hostile cookie kinds; the redirect issued by `To`, `Rout
 allocation measured; an out-of-memory death of the driver under its `ulimit -v` is converted into a violation for the hostile-cookie case
 that was running (that is the property's failure mode), every other death is exit 2. Fixed: `e12d1b6`, `4477c10`, (`6cd3566` under C05). Open
 findings `C12-raw-msgpack-cookie-conforming-client` and `C12-raw-msgpack-cookie-control-bytes`: the printable encoding that would repair them
-cannot keep the unedited suite green (redirect tests read and write the cookie as raw MessagePack)."""
+cannot keep the unedited suite green (redirect tests read and write the cookie as raw MessagePack). Fifth batch: text class `pct` (percent escapes are text like any other), `Faults` (the handler that receives the messages fails after reading them; with `double` the application's error handler fails too: the response expires the cookie all the same). Almost every case hits one of the two raw-MessagePack findings, so the driver's record cap is lifted for this check, and a run whose driver reports more violations than it wrote records is inconclusive (the new cases had first hidden behind the cap)."""
 ASBUILT["C13"] = """**As built.** `spec/Limiter.tla`, `MC_Limiter.tla` + cfgs (fixed / sliding / skip / skip-sliding / mutant without mutex), `Limiter_Trace.tla` (+ config
 templates), `harness/c13_test.go` (`TestC13Sched`: gate-scheduler DFS, traces; `TestC13Hist`: simulated timed histories on memory and external
 storage). 4.2 M states, 18 k traces/histories, ~100 s quick. Invariants that read the clock are evaluated only in states where the clock
@@ -106,7 +106,7 @@ ASBUILT["C15"] = """**As built.** `spec/Session.tla` (mode `middleware` / `store
 header / query sources on memory and external storage with a counting `KeyGenerator`. Writes after `Destroy` in the same request (nothing of
 them is kept), a second `store.Get` for a loaded session (`ReGet`: same id, stored data, absolute deadline unchanged) and a focused
 configuration (`Session_Hist_life.cfg`: one client, single ticks of 2 between requests, so that a session in use meets its absolute deadline)
-were added after the second round of seeded changes. Sequential only: the concurrent same-id exploration was not built. `ByIDSave(i, k, v)` (store API task: `GetByID`, `Set`, `Save`, `Release`; saving is a use -- the idle timeout runs from then, the absolute deadline stays) was added after the fourth batch of seeded changes."""
+were added after the second round of seeded changes. Sequential only: the concurrent same-id exploration was not built. `ByIDSave(i, k, v)` (store API task: `GetByID`, `Set`, `Save`, `Release`; saving is a use -- the idle timeout runs from then, the absolute deadline stays) was added after the fourth batch of seeded changes. The thorough tier with `ByIDSave` found `RESETFIX`: `Reset()` cleared the session's data including its absolute deadline and set none for the new session, so a session reset by a handler never expired absolutely."""
 ASBUILT["C16"] = """**As built.** `spec/Csrf.tla` (+ `Csrf_Hist.cfg.tmpl`; `SessionBackend`, `Put/Drop` token semantics of the session back end), `harness/c16_test.go`.
 Fixed: `7171d2e` (Referer compared as an origin). False alarm corrected: a DELETE route that sits behind the middleware is an unsafe request
 like any other; the first model treated the harness's own "delete token" route as safe. The restriction that a `Referer` is only generated next to an absent / `null` Origin on https was dropped: every Origin class meets every Referer class on both schemes."""
@@ -122,7 +122,7 @@ fields" rule, what arrives per key / per file); drivers `c18asm_test.go`, `c18bo
 repository's own `Test_CookieJarGet` asserts the reversed path test. Harness errors corrected: a double `resp.Close()` put one Response
 into the pool twice; the identity of a pooled `*Request` is unreliable, so requests are mapped through the goroutine id at the second hook. `ClientKV.tla` (added with the fourth batch of seeded changes): every sequence of <= 3 `Add` / `Set` / plural / `Del` calls on headers, query parameters and form fields, on request and client; what arrives is per key what the calls leave behind (`SetOverrides`). It found `6d15e73` at once (`Set*` replaced only the first of several values) and the open finding `C18-set-reorders-other-values`. `ClientAssemble.tla` got the request's own context deadline (`CtxKinds`, `Cut`): a later deadline does not extend the timeout, and a request cut off long before the reply can arrive must end with an error (1.5 s endpoint, 30 ms timeout: no timing race)."""
 ASBUILT["C19"] = """**As built.** `spec/Cors.tla` (`Scope` constant), `harness/c19_test.go`; all cases are served on one recycled `RequestCtx`, as on a keep-alive connection, so a header left behind by the previous
-response would show. 25 k cases, 7-9 s. No defect found."""
+response would show. 25 k cases, 7-9 s. No defect found. Fifth batch: configuration `blank` (the origin list is set but names nothing: the constructor may refuse it; if it does not, nothing is permitted)."""
 ASBUILT["C20"] = """**As built.** `spec/EncryptCookie.tla`, `harness/c20_test.go`. 5.6 k symbolic scenarios expanded to every byte / length of real ciphertexts; the first handler may fail after setting its cookies (`outcome`), and `TestC20Conc` performs the
 first step from 8 clients at once on one middleware instance. No defect
-found. False alarm corrected: the binary value class is restricted to bytes a cookie value can carry."""
+found. False alarm corrected: the binary value class is restricted to bytes a cookie value can carry. Fifth batch: value classes `huge` (4 000 bytes: the ciphertext exceeds 4 KiB) and `issued` (the text is itself a ciphertext the server issued under the current key -- still just a text)."""
